@@ -30,7 +30,7 @@ var c16 = core.Register(&core.Prop{
 	Shards: func(tier string) int { return pickTier(tier, 8, 16) },
 	Floors: func(c map[string]int64, tier string) []string {
 		var out []string
-		for _, k := range []string{"paths_checked", "null_results", "assert_errors", "number_results", "identity_results", "builtin_names", "typed_map_zero_entries", "struct_fields", "no_map_cases", "missing_field_errors", "null_equalities"} {
+		for _, k := range []string{"paths_checked", "null_results", "assert_errors", "number_results", "identity_results", "builtin_names", "typed_map_zero_entries", "struct_fields", "no_map_cases", "missing_field_errors", "null_equalities", "two_read_cases"} {
 			if c[k] == 0 {
 				out = append(out, "coverage floor: no "+k)
 			}
@@ -80,6 +80,19 @@ func step(spec val.V, built interface{}, key string) (val.V, interface{}, string
 			return e, rv.Interface(), "ok"
 		}
 		return val.V{}, nil, "null"
+	case "rowA", "rowB":
+		switch key {
+		case "Qty", "Price", "Note":
+			if key == "Note" && spec.K == "rowB" {
+				return val.V{}, nil, "error"
+			}
+			e, ok := spec.Get(key)
+			if !ok {
+				return val.V{}, nil, "unspec"
+			}
+			return e, reflect.ValueOf(built).FieldByName(key).Interface(), "ok"
+		}
+		return val.V{}, nil, "error"
 	case "estruct":
 		o, _ := built.(val.Outer)
 		switch key {
@@ -205,7 +218,7 @@ var c16Path = core.Mon(c16, "lookup", func(w *core.W, c *PathCase) {
 		spec, built, st = step(spec, built, g.Key)
 		status = st
 		if st == "ok" {
-			if pk == "struct" || pk == "estruct" {
+			if pk == "struct" || pk == "estruct" || pk == "rowA" || pk == "rowB" {
 				w.Count("struct_fields")
 			}
 			if strings.HasPrefix(pk, "maps") && pk != "maps" && (spec.I == 0 && spec.S == "" && !spec.B && spec.U == 0) {
@@ -321,6 +334,66 @@ var c16Path = core.Mon(c16, "lookup", func(w *core.W, c *PathCase) {
 	}
 })
 
+// TwoPathCase: two reads in one formula (a memo keyed by the path's text must not confuse them), optionally with
+// a local re-bound in between.
+type TwoPathCase struct {
+	Data val.V    `json:"data"`
+	P1   PathCase `json:"p1"`
+	P2   PathCase `json:"p2"`
+	Form string   `json:"form"` // "array" | "rebind"
+}
+
+var c16Two = core.Mon(c16, "two-reads", func(w *core.W, c *TwoPathCase) {
+	single := func(p PathCase) *EvalOut {
+		return evaluate("["+p.Src()+"]", c.Data, nil)
+	}
+	o1, o2 := single(c.P1), single(c.P2)
+	if o1.ParseErr != nil || o2.ParseErr != nil || o1.Panicked || o2.Panicked {
+		w.Skip("two-reads-unparsable")
+		return
+	}
+	var src string
+	if c.Form == "rebind" {
+		// $o = <base1>, $f = $o<segs>, $o = <base2>, [$f, $o<segs>]
+		seg := ""
+		for _, g := range c.P1.Segs {
+			seg += g.Op + g.Key
+		}
+		src = fmt.Sprintf("$o = %s, $f = $o%s, $o = %s, [$f, $o%s]", c.P1.Base, seg, c.P2.Base, seg)
+		p2 := PathCase{Base: c.P2.Base, Segs: c.P1.Segs}
+		o2 = single(p2)
+		if o2.ParseErr != nil || o2.Panicked {
+			return
+		}
+	} else {
+		src = "[" + c.P1.Src() + ", " + c.P2.Src() + "]"
+	}
+	out := evaluate(src, c.Data, nil)
+	w.Eval(1)
+	w.Count("two_read_cases")
+	w.Nontrivial(src + "\x00" + core.HashStr(c.Data))
+	if out.ParseErr != nil {
+		return
+	}
+	if out.Panicked {
+		w.Violation("two-reads", "C16/escaped-panic", c, nil, fmt.Sprint(out.PanicVal), src)
+		return
+	}
+	wantErr := o1.Err != nil || o2.Err != nil
+	if wantErr != (out.Err != nil) {
+		w.Violation("two-reads", "C16/two-reads-error-mismatch", c, fmt.Sprint("error expected: ", wantErr, " (", o1.Err, " / ", o2.Err, ")"), fmt.Sprint(show(out.Val), out.Err), "each read alone decides whether "+src+" is an error")
+		return
+	}
+	if wantErr {
+		return
+	}
+	arr, _ := out.Val.([]interface{})
+	w1, w2 := o1.Val.([]interface{})[0], o2.Val.([]interface{})[0]
+	if len(arr) != 2 || obs.SnapshotValues(arr[0]) != obs.SnapshotValues(w1) || obs.SnapshotValues(arr[1]) != obs.SnapshotValues(w2) {
+		w.Violation("two-reads", "C16/two-reads-value", c, "["+show(w1)+", "+show(w2)+"]", show(out.Val), "both reads of "+src+" must see what each reads alone")
+	}
+})
+
 // c16Data draws a data map rich in the kinds the statement names.
 func c16Data(r *rand.Rand) val.V {
 	inner := func(depth int) val.V { return val.RandMap(r, depth, 2+r.Intn(3)) }
@@ -333,6 +406,8 @@ func c16Data(r *rand.Rand) val.V {
 		{K: "st", V: val.Struct(val.KV{K: "A", V: val.Int("int", int64(r.Intn(3)))}, val.KV{K: "S", V: val.Str([]string{"", "s"}[r.Intn(2)])}, val.KV{K: "M", V: inner(1)},
 			val.KV{K: "P", V: val.PStruct(val.KV{K: "A", V: val.Int("int", 5)})}, val.KV{K: "Any", V: val.RandScalar(r)}, val.KV{K: "priv", V: val.Int("int", 1)})},
 		{K: "st0", V: val.Struct()},
+		{K: "ra", V: val.V{K: "rowA", M: []val.KV{{K: "Qty", V: val.Int("int", 7)}, {K: "Price", V: val.Int("int", 3)}, {K: "Note", V: val.Str("n")}}}},
+		{K: "rb", V: val.V{K: "rowB", M: []val.KV{{K: "Qty", V: val.Int("int", 2)}, {K: "Price", V: val.Int("int", 50)}}}},
 		{K: "es", V: val.V{K: "estruct", M: []val.KV{{K: "City", V: val.Str("Oslo")}, {K: "Floor", V: val.Int("int", int64(r.Intn(9)))}, {K: "Name", V: val.Str("n")}, {K: "Age", V: val.Int("int", 30)}}}},
 		{K: "wrap", V: val.Map(val.KV{K: "p", V: val.V{K: "estruct", M: []val.KV{{K: "City", V: val.Str("Rome")}, {K: "Name", V: val.Str("w")}}}})},
 		{K: "k", V: val.Map(val.KV{K: "k", V: val.Map(val.KV{K: "k", V: val.Map(val.KV{K: "k", V: val.RandScalar(r)}, val.KV{K: "z", V: val.Nil()})})})},
@@ -346,7 +421,7 @@ func c16Data(r *rand.Rand) val.V {
 	return val.Map(kv...)
 }
 
-var c16Keys = []string{"City", "Floor", "Name", "Age", "p", "a", "b", "c", "k", "z", "name", "x1", "len", "max", "now", "A", "S", "F", "M", "P", "Any", "Nil", "N", "T", "priv", "Zz", "missing", "tm", "st", "np", "$v"}
+var c16Keys = []string{"Qty", "Price", "Note", "City", "Floor", "Name", "Age", "p", "a", "b", "c", "k", "z", "name", "x1", "len", "max", "now", "A", "S", "F", "M", "P", "Any", "Nil", "N", "T", "priv", "Zz", "missing", "tm", "st", "np", "$v"}
 
 func init() { c16.Run = runC16 }
 
@@ -404,6 +479,41 @@ func runC16(w *core.W) {
 				}
 			}
 			run(c, j)
+		}
+		// two reads in one formula: the same path with '.' and '!.' swapped, and a local re-bound between two reads
+		for j := 0; j < 120; j++ {
+			b1 := bases[r.Intn(len(bases))]
+			p1 := PathCase{Data: val.V{}, Base: b1}
+			cur := data
+			if e, ok := data.Get(b1); ok {
+				cur = e
+			}
+			for d, nd := 0, 1+r.Intn(3); d < nd; d++ {
+				key := c16Keys[r.Intn(len(c16Keys))]
+				if len(cur.M) > 0 && r.Intn(3) != 0 {
+					if k2 := cur.M[r.Intn(len(cur.M))].K; len(ref.Lexemes([]byte(k2))) == 1 && ref.IsIDStart(rune(k2[0])) && !ref.Keywords[k2] {
+						key = k2
+					}
+				}
+				p1.Segs = append(p1.Segs, Seg{[]string{".", ".", "!."}[r.Intn(3)], key})
+				if e, ok := cur.Get(key); ok {
+					cur = e
+				} else {
+					cur = val.V{}
+				}
+			}
+			p2 := PathCase{Base: b1, Segs: append([]Seg{}, p1.Segs...)}
+			k := r.Intn(len(p2.Segs))
+			if p2.Segs[k].Op == "." {
+				p2.Segs[k].Op = "!."
+			} else {
+				p2.Segs[k].Op = "."
+			}
+			c16Two(w, &TwoPathCase{Data: data, P1: p1, P2: p2, Form: "array"})
+			c16Two(w, &TwoPathCase{Data: data, P1: p2, P2: p1, Form: "array"})
+			if b1 != "this" && !builtinSet[b1] {
+				c16Two(w, &TwoPathCase{Data: data, P1: p1, P2: PathCase{Base: bases[r.Intn(len(bases))]}, Form: "rebind"})
+			}
 		}
 		// without a data map
 		for _, b := range []string{"a", "this", "missing", "len"} {
